@@ -56,14 +56,14 @@ func (r *msgReceiver) ReadFully() (message []byte, metadata map[string][]byte, e
 	}
 
 	msgSize := int(binary.BigEndian.Uint64(firstChunk.Content))
+	if msgSize < 0 {
+		return nil, firstChunk.Metadata, errors.New(ErrInvalidMessageLength)
+	}
 
-	b := make([]byte, msgSize)
-	read := 0
+	// the buffer grows with the chunks actually received: the announced length alone allocates nothing
+	b := append([]byte(nil), firstChunk.Content[8:]...)
 
-	copy(b, firstChunk.Content[8:])
-	read += len(firstChunk.Content) - 8
-
-	for read < msgSize {
+	for len(b) < msgSize {
 		chunk, err := r.stream.Recv()
 		if err == io.EOF {
 			break
@@ -72,15 +72,14 @@ func (r *msgReceiver) ReadFully() (message []byte, metadata map[string][]byte, e
 			return b, firstChunk.Metadata, err
 		}
 
-		copy(b[read:], chunk.Content)
-		read += len(chunk.Content)
+		b = append(b, chunk.Content...)
 	}
 
-	if read < msgSize {
+	if len(b) < msgSize {
 		return b, firstChunk.Metadata, io.EOF
 	}
 
-	return b, firstChunk.Metadata, nil
+	return b[:msgSize], firstChunk.Metadata, nil
 }
 
 // Read read fill message with received data and return the number of read bytes or error. If no message is present it returns 0 and io.EOF. If the message is complete it returns 0 and nil, in that case successive calls to Read will returns a new message.
@@ -120,6 +119,10 @@ func (r *msgReceiver) Read(data []byte) (n int, err error) {
 				return 0, err
 			}
 			r.tl = int(binary.BigEndian.Uint64(trailer))
+			if r.tl < 0 {
+				r.tl = 0
+				return 0, errors.New(ErrInvalidMessageLength)
+			}
 		}
 
 		// no more data in stream but buffer is not enough large to contains the expected value
